@@ -96,7 +96,7 @@ func tracePartWritesOf(ops []simos.Op, kinds, pubKinds map[string]string) (pws [
 	renamed := map[string]bool{}
 	complete := map[string]bool{} // part directories whose creation was closed
 	tmpData := map[string][]byte{}
-	pending := map[string]*pubWrite{}   // by tmp path
+	pending := map[string]*pubWrite{}      // by tmp path
 	lastOf := map[string]map[string]bool{} // table -> names of its latest manifest in place
 	for i := range ops {
 		op := &ops[i]
@@ -354,12 +354,13 @@ func runTraceCrash(e *simcore.Env, tp *simcore.Tape) {
 					d := sp.Ts / 86400_000
 					dayOf[sp.Wid] = d
 					traceIDs[sp.TraceID] = true
-					if tables[d] = true; len(tables) == 2 {
+					if seen := tables[d]; !seen && len(tables) == 1 {
 						// two tables flush, merge and publish on their own goroutines at the same simulated instants: the
 						// order of their operations in the journal is decided by the real scheduler
 						e.FreeRunning()
 						e.Probe("reach.history_spans_tables")
 					}
+					tables[d] = true
 					if byDay[d] == nil {
 						byDay[d] = &batchInfo{ackIdx: simos.Len()}
 						days = append(days, d)
@@ -438,7 +439,8 @@ func runTraceCrash(e *simcore.Env, tp *simcore.Tape) {
 		// the crash specifications, ascending in K
 		type crashSpec struct {
 			simdisk.Spec
-			cut int // which prefix of the in-flight write survives (index into none/1 byte/half/all but one), -1 = op not started
+			cut   int    // which prefix of the in-flight write survives (index into none/1 byte/half/all but one), -1 = op not started
+			where string // how the crash op was chosen
 		}
 		var specs []crashSpec
 		nSpecs := tp.Range(4, 10)
@@ -450,15 +452,18 @@ func runTraceCrash(e *simcore.Env, tp *simcore.Tape) {
 			}
 		}
 		harshest := func(k int) crashSpec {
-			return crashSpec{Spec: simdisk.Spec{K: k, Partial: -1, Power: true, NsKeep: 0, TailNum: 0, TailDen: 1}, cut: -1}
+			return crashSpec{Spec: simdisk.Spec{K: k, Partial: -1, Power: true, NsKeep: 0, TailNum: 0, TailDen: 1}, cut: -1, where: "reference point after the last completed part creation"}
 		}
 		for i := 0; i < nSpecs; i++ {
 			var k int
 			reference := -1
+			chosen := "any op"
 			switch where := tp.Weighted(2, 2, 3, 3); {
 			case where == 1 && len(interesting) > 0:
 				k = interesting[tp.Choose(len(interesting))]
+				chosen = "namespace-op or dir-fsync boundary"
 			case where == 2 && len(pws) > 0:
+				chosen = "inside a part creation"
 				// inside the creation of one part (flush or merge output): between two of its files, or anywhere
 				pw := pws[tp.Choose(len(pws))]
 				if len(pw.files) > 0 && tp.Bool(2, 3) {
@@ -467,6 +472,7 @@ func runTraceCrash(e *simcore.Env, tp *simcore.Tape) {
 					k = pw.begin + 1 + tp.Choose(min(pw.end, endIdx)-pw.begin)
 				}
 			case where == 3 && len(pubs) > 0:
+				chosen = "inside a manifest publication"
 				// inside one publication: the tmp file of the manifest is being written, the manifest is not in place;
 				// publications that replace file parts (merge publications) are preferred
 				from := pubs
@@ -485,7 +491,7 @@ func runTraceCrash(e *simcore.Env, tp *simcore.Tape) {
 			default:
 				k = tp.Choose(endIdx + 1)
 			}
-			sp := crashSpec{Spec: simdisk.Spec{K: k, Partial: -1}, cut: -1}
+			sp := crashSpec{Spec: simdisk.Spec{K: k, Partial: -1}, cut: -1, where: chosen}
 			if k < len(ops) && ops[k].Kind == simos.OpWrite && tp.Bool(1, 2) {
 				l := len(ops[k].Data)
 				sp.cut = tp.Choose(4)
@@ -503,7 +509,9 @@ func runTraceCrash(e *simcore.Env, tp *simcore.Tape) {
 			}
 		}
 		// always: both models at the final quiescent point, the harshest power cut included
-		specs = append(specs, crashSpec{Spec: simdisk.Spec{K: endIdx, Partial: -1}, cut: -1}, harshest(endIdx))
+		final := harshest(endIdx)
+		final.where = "final quiescent point"
+		specs = append(specs, crashSpec{Spec: simdisk.Spec{K: endIdx, Partial: -1}, cut: -1, where: final.where}, final)
 		sort.SliceStable(specs, func(i, j int) bool { return specs[i].K < specs[j].K })
 		lowerK, lowerP := map[int]bool{}, map[int]bool{} // batches known durable under each model at an earlier point
 		var specDesc []string
@@ -555,18 +563,19 @@ func runTraceCrash(e *simcore.Env, tp *simcore.Tape) {
 				}
 			}
 			sort.Strings(in)
-			// the byte count of a cut write and the byte/file totals of the crash state depend on the order in which
-			// the engine walks its maps: they go to the diagnostics, not into the canonical history
-			sd := fmt.Sprintf("%s@%d", map[bool]string{false: "kill-9", true: "power-loss"}[sp.Power], sp.K)
+			// The order in which the engine walks its maps (tag files of a part, the secondary indexes of a table) moves
+			// operations inside the journal: the index and the file of the crash op, the byte count of a cut write and the
+			// byte/file totals of the crash state go to the diagnostics, not into the canonical history
+			sd := map[bool]string{false: "kill-9", true: "power-loss"}[sp.Power]
 			if sp.cut >= 0 {
 				sd += fmt.Sprintf("(write cut at %s)", []string{"0", "1 byte", "half", "all but 1 byte"}[sp.cut])
 			}
 			if sp.Power {
 				sd += fmt.Sprintf("(ns+%d,tail=%d/%d,zero=%v)", sp.NsKeep, sp.TailNum, sp.TailDen, sp.ZeroFill)
 			}
-			specDesc = append(specDesc, sd)
-			e.Event("crash %s [%s] inside=%v", sd, kind, in)
-			e.Note("crash %s -> %s", sp.Spec, desc)
+			specDesc = append(specDesc, fmt.Sprintf("%s@%d", sd, sp.K))
+			e.Event("crash %s (%s) inside=%v", sd, sp.where, in)
+			e.Note("crash %s [%s] -> %s", sp.Spec, kind, desc)
 			e.Probe("fault.crash." + map[bool]string{false: "kill9", true: "powerloss"}[sp.Power])
 			if sp.Partial >= 0 {
 				e.Probe("fault.crash.inside_write")
